@@ -80,14 +80,16 @@ DONE = {
 
 # sentences appended to the level texts (extensions of session 5)
 EXTRA = {
+ "C01": " Half of the pairs have a side (or both) that holds the document read-only.",
+ "C09": " The pinned layouts also cover AuthorId / NamespaceId (their 32 bytes) and head reports (independent decoder).",
  "C02": " A small family sends the local steps (insert / prefix delete with its reported count) through the client API of a real engine (Doc::set_hash, Doc::del, Doc::get_many) against the same model.",
  "C03": " The clause 'counted as inserted' is judged through the store actor's counters of entries added by peers: exact for single remote inserts, never above what was valid and applied for a message.",
  "C07": " About 1.6 % of the cases drive the client API of a real Docs engine (memory or file-backed): imports that hand back handles which stay open, further opens and closes, writes through set_bytes / del, drop, restart from disk; the capability model predicts every write and the listed kinds after every step.",
- "C10": " A rare family gives one side of a real-vs-real session 255..1100 entries by as many distinct authors (filling the store is under the watchdog too).",
- "C11": " Lifecycle schedules also deliver neighbour-down notices through the live actor's real inbox dispatch: the slot kept for the peer must not change.",
- "C12": " Rare cases add a crowd of 31..257 subscribers that must all see the same sequence.",
+ "C10": " Against a scripted peer a successful acceptor may not report fewer received entries than it took into its store. A rare family gives one side of a real-vs-real session 255..1100 entries by as many distinct authors (filling the store is under the watchdog too).",
+ "C11": " In lifecycle schedules sync-report dial decisions go through the real report handler. Lifecycle schedules also deliver neighbour-down notices through the live actor's real inbox dispatch: the slot kept for the peer must not change.",
+ "C12": " A quarter of the cases have a subscriber whose channel also serves the other document of the same actor. Rare cases add a crowd of 31..257 subscribers that must all see the same sequence.",
  "C05": " About 0.7 % of the cases run every query once more through the client API of a real engine opened on the generated database (Doc::get_many / Doc::get_exact).",
- "C15": " Rare policies carry 126..300 filters; a small family sets and reads policies through the client API of a real engine, with a restart from disk.",
+ "C15": " A capability for the document is imported again after a policy was set (the policy must stay). Rare policies carry 126..300 filters; a small family sets and reads policies through the client API of a real engine, with a restart from disk.",
  "C17": " Some file-backed histories end with the lists read through the client API of a real engine opened on the database.",
  "C16": " Rare cases add 127..300 bystander documents (entries, policies, peers) that must be listed and unchanged at the end.",
  "C18": " The key each reported head names must survive every open that has nothing to rebuild. A fifth of the cases re-encode the whole file in the tuple format of the releases built on redb 2.x (redb 3's Legacy types) before it is opened; nothing observable - entries, heads, settings, remembered peers - may change.",
